@@ -26,7 +26,7 @@ const rule = "(A) breadth-first search over histories of qrow/take/qidx/get read
 	"over rows {k1,k2} x {absent,v1,v2} and cache keys {p:1,p:2,i:a}; histories-pk: the same reads/writes/advances with the rows' primary keys being int >= 1e6, int > 2^53 or strings (first op picks the shape); " +
 	"a state is distinct by reference state + complete miniredis content with TTLs and " +
 	"non-trivial when a cache entry, taint or armed fault is part of it; every transition re-executes the real code from an empty store. " +
-	"(B) every interleaving up to the preemption bound reported per scenario of 3 concurrent Take/QueryRow/QueryRowIndex readers (primary-key shapes small, >= 1e6, > 2^53, string); distinct by (scenario, queries per cache key, flights, per-reader source Q=own query S=shared flight H=cache hit E=error). " +
+	"(B) every interleaving up to the preemption bound reported per scenario of 3 concurrent Take/QueryRow/QueryRowIndex readers (primary-key shapes small, >= 1e6, > 2^53, string); plus scenarios with an outage-begin/outage-end thread pair or a cache-Del thread placed at every point of 2-3 readers' flights; distinct by (scenario, queries per cache key, flights, per-reader source Q=own query S=shared flight H=cache hit E=error). " +
 	"(C) retry ladder: every outage length T-1,T,T+1 around each retry time T of the cleaner (1s,6s,66s,366s,3966s after a failed invalidation) x stale entry kind {row,placeholder,index} x Exec context {request,background} x random-source answer {0.5,0,1}, " +
 	"the cleaner's wheel ticked by the harness; distinct by case + observed retry times, non-trivial when a stale entry existed and coherence was demanded after the outage"
 
